@@ -236,13 +236,51 @@ Proof.
   - intros [k [a b c]] _. reflexivity.
 Qed.
 
+(* ---- memory object -> file object -> memory object ---- *)
+
+Lemma filter_map_comm {A B} (f : B -> bool) (g : A -> B) (l : list A) :
+  filter f (map g l) = map g (filter (fun x => f (g x)) l).
+Proof. induction l as [|x l IH]; [reflexivity|]. cbn [map filter]. destruct (f (g x)); cbn [map]; now rewrite IH. Qed.
+
+Lemma geo_cross (w n : Z -> Z) : forall g, length (g_floats g) = 12%nat ->
+  Forall (fun b => n (w b) = b) (g_floats g) ->
+  geo_mem_of_obj n (geo_as_read (geo_obj_of_mem w g)) = Some (mk_geo (g_floats g) true).
+Proof.
+  intros [fs v] L F. cbn [g_floats g_valid] in *.
+  do 12 (destruct fs as [|? fs]; [discriminate|]). destruct fs; [|discriminate]. clear L.
+  repeat match goal with H : Forall _ (_ :: _) |- _ => inversion H; subst; clear H end.
+  unfold geo_mem_of_obj, geo_as_read, geo_obj_of_mem, vec3_of, narrow_all, yfl, slice.
+  cbn [g_floats g_valid fg_origin fg_rot fg_valid firstn skipn Nat.sub map opt_all app].
+  repeat match goal with H : n (w _) = _ |- _ => rewrite H; clear H end.
+  reflexivity.
+Qed.
+
+Lemma calib_cross (w n : Z -> Z) : forall c, length (c_floats c) = 14%nat ->
+  Forall (fun b => n (w b) = b) (c_floats c) ->
+  calib_mem_of_obj n (calib_as_read (calib_obj_of_mem w c)) = Some (mk_calib (c_floats c) (c_uid c) true).
+Proof.
+  intros [fs u v] L F. cbn [c_floats c_uid c_valid] in *.
+  do 14 (destruct fs as [|? fs]; [discriminate|]). destruct fs; [|discriminate]. clear L.
+  repeat match goal with H : Forall _ (_ :: _) |- _ => inversion H; subst; clear H end.
+  unfold calib_mem_of_obj, calib_as_read, calib_obj_of_mem, narrow_all.
+  cbn [c_floats c_uid c_valid fc_s0 fc_s1 fc_uid fc_valid firstn skipn map opt_all app length Nat.eqb andb].
+  repeat match goal with H : n (w _) = _ |- _ => rewrite H; clear H end.
+  reflexivity.
+Qed.
+
+Lemma calib_obj_lengths w c : length (c_floats c) = 14%nat ->
+  length (fc_s0 (calib_obj_of_mem w c)) = 7%nat /\ length (fc_s1 (calib_obj_of_mem w c)) = 7%nat.
+Proof.
+  intros L. unfold calib_obj_of_mem. cbn [fc_s0 fc_s1]. rewrite !map_length, firstn_length, skipn_length, L. split; reflexivity.
+Qed.
+
 (* ---- with the YAML library as a hypothesis ---- *)
 
 Section YamlFiles.
   Variable file : Type.
   Variable yaml_dump : yv -> file.
   Variable yaml_safe_load : file -> option yv.
-  Hypothesis yaml_load_dump : forall d, yaml_safe_load (yaml_dump d) = Some d.
+  Hypothesis yaml_load_dump : forall d, yv_plain d = true -> yaml_safe_load (yaml_dump d) = Some d.
 
   Definition lh_cfg_write geos calibs st : file := yaml_dump (lh_file_data geos calibs st).
   Definition lh_cfg_read (f : file) : lh_file_res :=
@@ -251,15 +289,58 @@ Section YamlFiles.
   Definition param_cfg_read (f : file) : param_file_res :=
     match yaml_safe_load f with Some d => param_file_read d | None => PF_Err ErrShape end.
 
-  Lemma lh_cfg_roundtrip geos calibs st : calibs_wf calibs ->
+  Lemma lh_cfg_roundtrip geos calibs st : calibs_wf calibs -> yv_plain (lh_file_data geos calibs st) = true ->
     lh_cfg_read (lh_cfg_write geos calibs st) =
     LF_Ok (map (fun kg => (fst kg, geo_as_read (snd kg))) (filter (fun kg => fg_valid (snd kg)) geos))
           (map (fun kc => (fst kc, calib_as_read (snd kc))) (filter (fun kc => fc_valid (snd kc)) calibs))
           st.
   Proof.
-    intros H. unfold lh_cfg_read, lh_cfg_write. rewrite yaml_load_dump. now apply lh_file_data_roundtrip.
+    intros H Pl. unfold lh_cfg_read, lh_cfg_write. rewrite (yaml_load_dump _ Pl). now apply lh_file_data_roundtrip.
   Qed.
 
-  Lemma param_cfg_roundtrip params : param_cfg_read (param_cfg_write params) = PF_Ok params.
-  Proof. unfold param_cfg_read, param_cfg_write. rewrite yaml_load_dump. apply param_file_data_roundtrip. Qed.
+  Lemma param_cfg_roundtrip params : yv_plain (param_file_data params) = true ->
+    param_cfg_read (param_cfg_write params) = PF_Ok params.
+  Proof. intros Pl. unfold param_cfg_read, param_cfg_write. rewrite (yaml_load_dump _ Pl). apply param_file_data_roundtrip. Qed.
+
+  (* memory images -> objects -> configuration file -> objects -> memory images: every base station whose image
+     is marked valid comes back with exactly the same 12 (14) float fields (and uid), marked valid; w / n are
+     struct's binary32 <-> Python float conversions, exact on the values involved *)
+  Variable w n : Z -> Z.
+
+  Lemma lh_geo_mem_file_mem (geos : list (yv * lh_geo)) st :
+    (forall kg, In kg geos -> length (g_floats (snd kg)) = 12%nat /\ Forall (fun b => n (w b) = b) (g_floats (snd kg))) ->
+    let objs := map (fun kg => (fst kg, geo_obj_of_mem w (snd kg))) geos in
+    yv_plain (lh_file_data objs [] st) = true ->
+    exists back, lh_cfg_read (lh_cfg_write objs [] st) = LF_Ok back [] st /\
+      map (fun ko => (fst ko, geo_mem_of_obj n (snd ko))) back =
+      map (fun kg => (fst kg, Some (snd kg))) (filter (fun kg => g_valid (snd kg)) geos).
+  Proof.
+    intros H objs Pl. eexists. split.
+    - apply lh_cfg_roundtrip; [intros kc []|exact Pl].
+    - unfold objs. rewrite filter_map_comm, !map_map.
+      change (filter (fun x : yv * lh_geo => fg_valid (snd (fst x, geo_obj_of_mem w (snd x)))) geos)
+        with (filter (fun kg : yv * lh_geo => g_valid (snd kg)) geos).
+      apply map_ext_in. intros [k g] Hin. apply filter_In in Hin as [Hin V]. cbn [fst snd] in *.
+      destruct (H (k, g) Hin) as [L F]. cbn [snd] in L, F. rewrite (geo_cross w n g L F).
+      destruct g as [fs v]. cbn [g_valid g_floats] in *. subst v. reflexivity.
+  Qed.
+
+  Lemma lh_calib_mem_file_mem (calibs : list (yv * lh_calib)) st :
+    (forall kc, In kc calibs -> length (c_floats (snd kc)) = 14%nat /\ Forall (fun b => n (w b) = b) (c_floats (snd kc))) ->
+    let objs := map (fun kc => (fst kc, calib_obj_of_mem w (snd kc))) calibs in
+    yv_plain (lh_file_data [] objs st) = true ->
+    exists back, lh_cfg_read (lh_cfg_write [] objs st) = LF_Ok [] back st /\
+      map (fun ko => (fst ko, calib_mem_of_obj n (snd ko))) back =
+      map (fun kc => (fst kc, Some (snd kc))) (filter (fun kc => c_valid (snd kc)) calibs).
+  Proof.
+    intros H objs Pl. eexists. split.
+    - apply lh_cfg_roundtrip; [|exact Pl]. intros kc Hin. unfold objs in Hin. apply in_map_iff in Hin as (x & <- & Hx).
+      cbn [snd]. apply calib_obj_lengths. apply (H x Hx).
+    - unfold objs. rewrite filter_map_comm, !map_map.
+      change (filter (fun x : yv * lh_calib => fc_valid (snd (fst x, calib_obj_of_mem w (snd x)))) calibs)
+        with (filter (fun kc : yv * lh_calib => c_valid (snd kc)) calibs).
+      apply map_ext_in. intros [k c] Hin. apply filter_In in Hin as [Hin V]. cbn [fst snd] in *.
+      destruct (H (k, c) Hin) as [L F]. cbn [snd] in L, F. rewrite (calib_cross w n c L F).
+      destruct c as [fs u v]. cbn [c_valid c_floats c_uid] in *. subst v. reflexivity.
+  Qed.
 End YamlFiles.
